@@ -1,8 +1,7 @@
 SPECIFICATION Spec
 CONSTANTS
-  Mode = "full1"
   Inits <- InitsRefute
-  MaxDepth = 1
+  ChainDepth = 1
   ChainFull = FALSE
   Dump = FALSE
 INVARIANT ImplAgrees
